@@ -21,11 +21,12 @@ ASSUMPTIONS = [
 ]
 
 BASE = dict(seqid="c1", source="s1", featuretype="exon", start=10, end=50, score=".", strand="+", frame=".")
-COLVARS = ({}, {"start": 11}, {"source": "s2"}, {"strand": "-"})
+COLVARS = ({}, {"start": 11}, {"source": "s2"}, {"strand": "-"}, {"start": ".", "end": "."})      # last: undefined coordinates
 ATTRVARS_Q = ({"tag": ["a"]}, {"tag": ["b"], "note": ["n"]})
 ATTRVARS_T = ATTRVARS_Q + ({"tag": ["a"], "note": ["n"]},)
 STRATS = [("error", ()), ("warning", ()), ("replace", ()), ("create_unique", ()),
-          ("merge", ()), ("merge", ("source",)), ("merge", ("strand",)), ("merge", ("source", "strand"))]
+          ("merge", ()), ("merge", ("source",)), ("merge", ("strand",)), ("merge", ("source", "strand")),
+          ("merge+debuglog", ())]                 # the same 'merge' with verbose="debug" (logging must not change the result)
 
 
 GRAND = {"p1": "gp1", "p2": "gp2"}
@@ -49,7 +50,7 @@ def bounds(tier):
 
 def shards(tier):
     nk = len(arrival_kinds(tier))
-    out = []
+    out = [("long", imp, si) for imp in ("gff_create", "gff_update", "gtf_create") for si in (3, 4, 5)]
     for si in range(len(STRATS)):
         for imp in ("gff_create", "gff_update", "gtf_create"):
             for k0 in range(nk):
@@ -91,15 +92,68 @@ def observe(db):
     feats = {}
     for row in c["features"]:
         fid = row[0]
-        cols = dict(zip(COLNAMES, [str(x) for x in row[1:9]]))
+        cols = dict(zip(COLNAMES, ["." if x is None else str(x) for x in row[1:9]]))      # undefined coordinates are stored as NULL
         feats[fid] = (cols, {k: list(v) for k, v in row[9]})
     rels = {(p, ch, lv) for (p, ch, lv) in c["relations"] if ch in feats}
     return feats, rels
 
 
+def body_long(ch, ctx):
+    """Thirteen column-distinct arrivals for one key (X, X_1 .. X_12), then arrivals agreeing with late ones."""
+    _, imp, si = ctx.shard
+    strategy, fmf = STRATS[si]
+    gtf = imp == "gtf_create"
+    repeat = ch.choose("then_agreeing_with", ((10,), (11, 12), (0, 12, 9)))
+    idkey, pkey = ("exon_id", "transcript_id") if gtf else ("ID", "Parent")
+    arrivals = []
+    for i in list(range(13)) + list(repeat):
+        cols = dict(BASE)
+        cols["start"] = 10 + i
+        attrs = {idkey: ["X"], "tag": ["t%d" % len(arrivals)], pkey: ["p1"]}
+        if gtf:
+            attrs["gene_id"] = [GRAND["p1"]]
+        arrivals.append(dict(key="X", cols=cols, attrs=attrs, parents=["p1"]))
+    texts = [render(a, gtf) for a in arrivals]
+    ref = Ref(strategy, fmf)
+    for a in arrivals:
+        ref.arrive(a)
+    ctx.sample(lambda: dict(long_sequence=True, strategy=strategy, importer=imp, n=len(arrivals), repeat=list(repeat)))
+    ctx.nontrivial()
+    ctx.outcome(("long", strategy, imp, len(ref.store)))
+    sig = dict(strategy=strategy, fmf=",".join(fmf), importer=imp.split("_")[0], via_update=imp == "gff_update", long=True)
+    wd = ctx.fresh_dir()
+    kw = dict(merge_strategy=strategy, verbose=False)
+    if fmf:
+        kw["force_merge_fields"] = list(fmf)
+    if gtf:
+        kw.update(id_spec={"exon": "exon_id"}, disable_infer_genes=True, disable_infer_transcripts=True)
+    if imp == "gff_update":
+        db = gffutils.create_db(dbutil.write_text(wd, "a.gff", "\n".join(STATIC_GFF + texts[:7]) + "\n"), os.path.join(wd, "o.db"), **kw)
+        db.update(dbutil.write_text(wd, "b.gff", "\n".join(texts[7:]) + "\n"), make_backup=False, **kw)
+    else:
+        db = gffutils.create_db(dbutil.write_text(wd, "a.g", "\n".join(([] if gtf else STATIC_GFF) + texts) + "\n"), ":memory:", **kw)
+    feats, rels = observe(db)
+    dbutil.close_db(db)
+    for sid in STATIC_IDS:
+        feats.pop(sid, None)
+    exp = ref.expected()
+    ctx.check(sorted(feats) == sorted(exp), "feature-lost" if set(exp) - set(feats) else "feature-invented", sig,
+              got=sorted(feats), expected=sorted(exp))
+    for fid, (ecols, eattrs, eparents) in exp.items():
+        if fid in feats:
+            gv = feats[fid][1].get("tag", [])
+            ctx.check(set(gv) == set(eattrs.get("tag", ())), "attribute-values-differ", dict(sig, key="other", lost=True), id=fid,
+                      got=sorted(gv), expected=sorted(eattrs.get("tag", ())))
+
+
 def body(ch, ctx):
+    if ctx.shard[0] == "long":
+        return body_long(ch, ctx)
     si, imp, k0 = ctx.shard
     strategy, fmf = STRATS[si]
+    verbose = False
+    if strategy == "merge+debuglog":
+        strategy, verbose = "merge", "debug"
     gtf = imp == "gtf_create"
     kinds = arrival_kinds(ctx.tier)
     maxlater = 2 if ctx.tier == "quick" else 3
@@ -124,7 +178,7 @@ def body(ch, ctx):
     ctx.outcome((strategy, fmf, imp, abort_at is not None, ref.explicit_collision, ref.third_into_suffix, len(ref.store)))
     sig = dict(strategy=strategy, fmf=",".join(fmf), importer=imp.split("_")[0], via_update=imp == "gff_update")
     wd = ctx.fresh_dir()
-    kw = dict(merge_strategy=strategy, verbose=False)
+    kw = dict(merge_strategy=strategy, verbose=verbose)
     if fmf:
         kw["force_merge_fields"] = list(fmf)
     if gtf:
